@@ -22,6 +22,9 @@ class TranslationError(Exception):
     pass
 
 
+INFO = {}      # filled by translate(): python view of the tables (used by check.py's generators)
+
+
 def norm(s):
     return re.sub(r"\s+", " ", s).strip()
 
@@ -216,6 +219,7 @@ def parse_func(name, body):
             raise TranslationError("%s/%s: unexpected text after loop: %r" % (name, dt, rest[:60]))
         s = rest[len("} } else"):].strip()
         entries.append((dt, norm(t1), stmts))
+        INFO.setdefault("rows", {}).setdefault(name, []).append((dt, norm(t1)))
     if not END_RE.match(s):
         raise TranslationError("%s: cannot parse the rest of the if/else chain: %r" % (name, s[:200]))
     if not entries:
@@ -292,6 +296,7 @@ def lean_strs(xs):
 
 
 def translate(repo="/repo"):
+    INFO.clear()
     check_glue(repo)
     src = open(os.path.join(repo, "src/smpi/mpi/smpi_op.cpp")).read()
     src = "\n".join(l for l in src.split("\n") if not re.match(r"\s*#\s*include", l))
@@ -348,6 +353,9 @@ def translate(repo="/repo"):
     basic = flag_list(m.group(1), "DT_FLAG_BASIC")
     # pair structs of smpi_datatype.hpp: struct name { T value; U index; };
     structs = re.findall(r"struct (\w+) \{\s*([\w ]+?) value;\s*([\w ]+?) index;\s*\};", hsrc)
+    INFO.update({"ops": ops, "dts": dts, "flags": dict(flags), "basic": basic,
+                 "structs": {a: (norm(b), norm(c)) for a, b, c in structs},
+                 "kinds": {f: ("loops" if b.startswith(".loops") else b[1:]) for f, b in funcs}})
     out = ["-- GENERATED by props/C31/gen_optable.py from /repo/src/smpi/mpi/smpi_op.cpp, smpi_datatype.cpp, smpi_datatype.hpp",
            "-- (do not edit; regenerated on every ./check C31)",
            "import SgVerif.C31.Ast", "namespace SgVerif.C31.Gen", "open SgVerif.C31", "",
